@@ -40,7 +40,7 @@ type bscript struct {
 
 func TestC09BatchedStoreFlush(t *testing.T) {
 	rec := simkit.NewRecorder(t, "C09", "batched_store_flush",
-		"rapid state machine over the real BatchedStoreBlobAccess alone: Put(blob from 8 contents, so duplicates within a batch are common) / flush() / FindMissing, batch size 1-5, upload concurrency 1-3 with generated transfer order, each step optionally arming an error (status code drawn from 12 codes), ctx-cancel or ctx-cancelled-but-ignored-by-the-back-end fault on the back end's next FindMissing and/or the Put of one chosen blob. Oracle: flush()==nil => every blob whose Put was acknowledged since the previous flush() is in the back end and no back-end fault happened since; a back-end fault since the previous flush() => flush() returns an error; a failed back-end call since the previous flush() => flush() returns an error; Put/flush fail only after a back-end fault or a cancellation (no spurious or stale errors); FindMissing issued by the adapter never exceeds the batch size; every buffer released exactly once (checked after every flush and refused Put, and at the end). NON-TRIVIAL = at least one fault reached and >=2 distinct blobs written; distinct by script hash")
+		"rapid state machine over the real BatchedStoreBlobAccess alone: Put(blob from 8 contents, so duplicates within a batch are common) / flush() / FindMissing, batch size 1-5, upload concurrency 1-3 with generated transfer order, each step optionally arming an error (status code drawn from 12 codes), ctx-cancel or ctx-cancelled-but-ignored-by-the-back-end fault on the back end's next FindMissing and/or the Put of one chosen blob (for the Put also written-but-acknowledgement-lost: the blob is stored and the call then answers with an error, which counts as a failed back-end call). Oracle: flush()==nil => every blob whose Put was acknowledged since the previous flush() is in the back end and no back-end fault happened since; a back-end fault since the previous flush() => flush() returns an error; a failed back-end call since the previous flush() => flush() returns an error; Put/flush fail only after a back-end fault or a cancellation (no spurious or stale errors); FindMissing issued by the adapter never exceeds the batch size; every buffer released exactly once (checked after every flush and refused Put, and at the end). NON-TRIVIAL = at least one fault reached and >=2 distinct blobs written; distinct by script hash")
 	pool := contentPool
 	rapid.Check(t, func(rt *rapid.T) {
 		sc := bscript{
@@ -102,16 +102,20 @@ func TestC09BatchedStoreFlush(t *testing.T) {
 					}
 				}
 				if allowPutFault {
-					st.PutKind = rapid.SampledFrom([]string{faultNone, faultNone, faultNone, faultNone, faultError, faultCancel, faultCancelIgnored}).Draw(rt, "put_fault")
+					st.PutKind = rapid.SampledFrom([]string{faultNone, faultNone, faultNone, faultNone, faultNone, faultError, faultCancel, faultCancelIgnored, faultAckLost}).Draw(rt, "put_fault")
 					if st.PutKind != faultNone {
 						st.PutOf = rapid.SampledFrom(pool).Draw(rt, "put_fault_of")
 						dk := keyOf(digestOf([]byte(st.PutOf)))
 						k := fmt.Sprintf("PUT:%s#%d", dk, w.putOcc[dk])
 						w.plan[k] = st.PutKind
-						if st.PutKind == faultError {
+						if st.PutKind == faultError || st.PutKind == faultAckLost {
 							c := rapid.SampledFrom(errorCodes).Draw(rt, "put_code")
 							w.planCode[k], st.PutCode = c, c.String()
-							labels["armed_put_error:"+st.PutCode] = true
+							if st.PutKind == faultError {
+								labels["armed_put_error:"+st.PutCode] = true
+							} else {
+								labels["armed_put_ack_lost"] = true
+							}
 						}
 					}
 				}
@@ -128,6 +132,9 @@ func TestC09BatchedStoreFlush(t *testing.T) {
 					info.calls = append(info.calls, w.calls[callsBefore:]...)
 					for _, f := range w.reached[reachedBefore:] {
 						info.reached = append(info.reached, f.Kind+"@"+f.Key)
+						if f.Kind == faultAckLost {
+							labels["reached_put_ack_lost"] = true
+						}
 						switch {
 						case f.Kind == faultCancelIgnored:
 							if !direct {
